@@ -202,8 +202,9 @@ pub fn verify_simple(bytes: &[u8], noise: &[(u8, bool)], v: &mut Verdict, execs:
                                 compare(&e, &p).map_err(|m| format!("cloud {ci} options {bits:06b} point {k}: {m} (raw {:?})", raw.points[k]))?;
                             }
                             (Some(Err(_)), Err(ModelErr::InvalidState(_))) => {
-                                // documented failure: the stored invalid-state value is outside its set
-                                break;
+                                // documented failure: the stored invalid-state value is outside its set; the failure
+                                // stands for this one point, the iteration goes on with the next and ends after the last
+                                v.nt("iteration_continues_after_an_out_of_set_invalid_state");
                             }
                             (Some(Ok(_)), Err(ModelErr::InvalidState(m))) => {
                                 return Err(format!("cloud {ci} options {bits:06b} point {k}: delivered although {m} is outside the documented set"));
@@ -230,7 +231,7 @@ impl Check for C05 {
          (noise calls first, then every switch once in a rotated order). Oracle: same number of points in the same order as the raw iterator; each \
          point equals the reference model of the documented function of the raw values (validity variants exactly, scaled integers raw*scale+offset, \
          row/column default -1, colour/intensity presence, conversions and pose within 1e-9 relative, normalisation per the C13 formula); Err only \
-         at the index of an out-of-set invalid-state value. Non-trivial: cloud with a data packet that completes no point, spherical-only cloud, \
+         at the index of an out-of-set invalid-state value, after which the iteration continues with the following points and ends after the last one. Non-trivial: cloud with a data packet that completes no point, spherical-only cloud, \
          non-identity pose, invalid-state value 1 or 2 present, or >= 3 data packets."
             .into()
     }
